@@ -50,9 +50,10 @@ CHECKS["C02"] = {"text": "Proved on the model for every configuration, option se
 CHECKS["C03"] = {"text": "Proved on the model (for well-formed resource ids, every configuration, option set, run length): the allocation structure invariant AInv holds in every "
     "observer snapshot and in the returned state -- a task lists a worker/facility iff that worker/facility lists the task, every worker and facility is assigned to at most "
     "one task, no duplicates, only READY/WORKING tasks hold resources; finishing a task releases everything it held (workers/facilities become FREE with empty assignment); the id "
-    "logs are the live lists at record time. PARTIAL: the clause relating the WORKING/ABSENCE state of a resource to 'holds a task and is not absent' is not yet proved; it is "
-    "checked by the oracle on implementation traces and by the correspondence of all resource states at every phase.",
-    "note": COMMON_NOTE + " PARTIAL: clause (d) (resource state <-> holds a task and not absent) is searched, not proved.",
+    "logs are the live lists at record time; (d) in every allocated / performed / recorded snapshot of every freshly initialised run each worker and facility is ABSENCE exactly when the step is a "
+    "project-wide absence step or in its own absence list, and otherwise WORKING exactly when it holds a task (FREE when it holds none) -- proved through the absence refresh, __allocate (states untouched, "
+    "only FREE resources get tasks) and check_working (closed form per resource via its unique holder). The oracle checks all clauses on implementation traces; the correspondence compares all resource states at every phase.",
+    "note": COMMON_NOTE,
     "technique": "Coq proof: inductive invariant through check_finished / __allocate (fold invariants with a free-list invariant) / check_working + oracle and correspondence on allocation lists and resource states"}
 CHECKS["C04"] = {"text": "Proved on the model: every worker newly allocated to a task in a step has a positive skill for it, belongs to a team assigned to it, is FREE after the step's "
     "absence refresh (hence not absent), and is in the task's fixed worker list when there is one; every newly allocated facility has a positive skill, belongs to a workplace "
